@@ -112,6 +112,7 @@ PROPS["C10"] = dict(
         for n in range(0, 6)
     ] + [
         e1("C10.generate.n3.small_domain", "c10_generate_3_small", "as C10.generate.n3 with domain size 2^k, k in 1..=3 (collisions are the interesting case and do not depend on k)", "generate_queries == sort+dedup(...) for 3 queries over tiny domains", timeout=1200, witness=False, mem=20),
+        e2("C10S"),
         e1("C10.points", "c10_points", "log domain size any in 1..=64, generator any felt, index any < 2^log (one query)", "queries_to_points: index -> 3 * w^bitreverse_log(index) (w^e an uninterpreted pow, bit reversal exact)", timeout=1200),
     ],
     outside=["query counts above 5 (sorting code is std's; the loop body is uniform)", "agreement with the indices the prover logged on recorded proofs (concrete file replay)",
@@ -133,6 +134,7 @@ PROPS["C08"] = dict(
         e1("C08.n_squeezes.3", "c08_n_squeezes_3", "state any; n = 3", "random_felts_to_prover(3)", tier=T),
         _hist("c08_hist_ass_0", "ASS", 0), _hist("c08_hist_sas_1", "SAS", 1), _hist("c08_hist_aass_1", "AASS", 1),
         _hist("c08_hist_vsas_0", "VSAS", 0), _hist("c08_hist_uss_0", "USS", 0), _hist("c08_hist_svss_1", "SVSS", 1),
+        e2("C08S"),
         _hist("c08_hist_avus_2", "AVUS", 2, T), _hist("c08_hist_asas_2", "ASAS", 2, T), _hist("c08_hist_ssuss_2", "SSUSS", 2, T), _hist("c08_hist_vvss_0", "VVSS", 0, T),
     ],
     outside=["agreement with the V->P lines of recorded Stone annotations (concrete file replay, not a solver question)",
